@@ -998,6 +998,9 @@ class SymC:
             k = int(k)
         if isinstance(k, Sym):
             k = k.concrete_int()
+        if isinstance(k, (float, np.floating)) and np.isfinite(k):
+            # principal power with a fixed non-integer real exponent: one uninterpreted function per exponent
+            return self._cuf(pow_uf_name(k))
         if not isinstance(k, (int, np.integer)):
             raise Unsupported('complex symbolic ** non-integer')
         k = int(k)
@@ -1461,7 +1464,10 @@ class SymArr(np.ndarray):
                 base[idx] = ite(k[idx], v[idx], base[idx])
             return
         if isinstance(key, SymBool):
-            v = np.broadcast_to(_obj(val), base.shape)
+            v = np.asarray(_obj(val))
+            if v.shape == (1,) + base.shape:      # a[True] selects with a leading axis of length 1
+                v = v.reshape(base.shape)
+            v = np.broadcast_to(v, base.shape)
             for idx in np.ndindex(base.shape):
                 base[idx] = ite(key, v[idx], base[idx])
             return
@@ -1470,6 +1476,8 @@ class SymArr(np.ndarray):
         np.ndarray.__setitem__(base, key, val)
 
     def __getitem__(self, key):
+        if isinstance(key, SymBool):
+            key = np.bool_(bool(key))     # scalar boolean index: decided (forks under an Explorer)
         if isinstance(key, SymArr):
             key = normalize(key)
             if isinstance(key, SymArr):
@@ -2451,6 +2459,10 @@ _UNARY[np.isnan] = _el_isnan
 _UNARY[np.isinf] = lambda v: v.isinf() if isinstance(v, SymFP) else (False if is_sym(v) else bool(np.isinf(v)))
 _UNARY[np.isfinite] = lambda v: SymBool(z3.And(z3.Not(z3.fpIsNaN(v.t)), z3.Not(z3.fpIsInf(v.t)))) if isinstance(v, SymFP) \
     else (True if is_sym(v) else bool(np.isfinite(v)))
+
+
+def pow_uf_name(k):
+    return 'pow_' + repr(float(k)).replace('.', 'p').replace('-', 'm')
 
 
 # --------------------------------------------------------------------------
